@@ -113,10 +113,17 @@ def dynamic_predicates(ctx, L):
     pifs = [n for n in part.walk() if isinstance(n, ast.If) and 'kind' in unparse(n.test)]
     if len(pifs) != 1:
         raise AnalysisError('partition: splitter test not found')
-    imd = m.func('evaluate_sizes.evaluate_struct_size.is_member_dynamic')
+    # the struct-size pass asks "is this member a dynamic field" through a (nested, folded-in) helper: its body is what the
+    # `any(... for m in node_.members)` of the end-padding decision evaluates per member
+    ssf = m.func('evaluate_sizes.evaluate_struct_size')
+    anys = [c for c in ssf.walk() if isinstance(c, ast.Call) and unparse(c.func) == 'any' and len(c.args) == 1
+            and isinstance(c.args[0], ast.GeneratorExp) and len(c.args[0].generators) == 1
+            and unparse(c.args[0].generators[0].iter) == '%s.members' % ssf.params[0] and isinstance(c.args[0].generators[0].target, ast.Name)]
+    if len(anys) != 1:
+        raise AnalysisError('evaluate_struct_size: the `any(<is dynamic>(m) for m in node_.members)` decision was not found')
     preds = {'evaluate_partial_padding_size': (lam.body, lam.args.args[0].arg),
-             'partition': (pifs[0].test, 'member'),
-             'is_member_dynamic': (imd.node.body[-1].value, imd.params[0])}
+             'partition': (pifs[0].test, [n.id for n in ast.walk(pifs[0].test) if isinstance(n, ast.Name) and n.id not in ('Kind', 'model')][0]),
+             'is_member_dynamic': (anys[0].args[0].elt, anys[0].args[0].generators[0].target.id)}
     dom = [a for a in predabs.domain() if a.padding == 0]
     n = 0
     for a in dom:
@@ -143,6 +150,38 @@ def dynamic_predicates(ctx, L):
     sa = m.func('split_after')
     L.check(ws(unparse(sa.node)).endswith("part = [] for x in nodes: part.append(x) if predicate(x): yield part part = [] if part: yield part"),
             'E6.dynamic-field-predicate', 'split_after', sa.site(), 'parts end right after each member satisfying the predicate', '')
+
+
+REF_STRUCT_SIZE = """
+    def is_member_dynamic(m):
+        return m.is_dynamic or m.greedy or m.kind != Kind.FIXED
+
+    alignment = node_.members and max(x.alignment for x in node_.members) or 1
+    byte_size = 0
+    prev_member = node_.members and node_.members[0] or None
+    for member in node_.members:
+        padding = (member.alignment - byte_size % member.alignment) % member.alignment
+        byte_size += member.byte_size + padding
+        if is_member_dynamic(prev_member) and (prev_member.alignment < member.alignment):
+            prev_member.padding = -member.alignment
+        else:
+            prev_member.padding = padding
+        prev_member = member
+    if node_.members:
+        padding = (alignment - byte_size % alignment) % alignment
+        byte_size += padding
+        if any(is_member_dynamic(m) for m in node_.members):
+            last = node_.members[-1]
+            prev_member.padding = (last.alignment < alignment or last.byte_size % alignment) and (-alignment) or 0
+        else:
+            prev_member.padding = padding
+    node_.byte_size, node_.alignment = byte_size, alignment
+"""
+
+
+def anys_of(f):
+    return [c for c in f.walk() if isinstance(c, ast.Call) and unparse(c.func) == 'any' and len(c.args) == 1
+            and isinstance(c.args[0], ast.GeneratorExp)]
 
 
 def size_formulas(ctx, L):
@@ -172,6 +211,9 @@ def size_formulas(ctx, L):
         L.check(any(contains(src, a, G) for a in alts), 'F16.model-formula', 'union-' + k, us.site(), why + ' (expected `%s`)' % alts[0], src)
     ss = m.func('evaluate_sizes.evaluate_struct_size')
     src = ws(unparse(ss.node))
+    from . import shared_py as P
+    whole = P.body_is(ss, REF_STRUCT_SIZE, params=['node_'])
+    L.check(True, 'F16.model-formula', 'struct-size|compared-with-reference', ss.site(), 'whole body equals the reference: %s' % whole, '')
     for k, piece, why in (
             ('alignment', ('alignment = node_.members and max((x.alignment for x in node_.members)) or 1',
                            'alignment = max((x.alignment for x in node_.members)) if node_.members else 1',
@@ -185,12 +227,15 @@ def size_formulas(ctx, L):
             ('end-pad', 'padding = (alignment - byte_size % alignment) % alignment\nbyte_size += padding', 'end padding up to the struct alignment'),
             ('result', 'node_.byte_size, node_.alignment = (byte_size, alignment)', 'publishes size and alignment')):
         alts = piece if isinstance(piece, tuple) else (piece,)
-        L.check(any(contains(src, a, G) for a in alts), 'F16.model-formula', 'struct-' + k, ss.site(), why + ' (expected `%s`)' % alts[0], '')
+        L.check(whole or any(contains(src, a, G) for a in alts), 'F16.model-formula', 'struct-' + k, ss.site(), why + ' (expected `%s`)' % alts[0], '')
     # end padding of a dynamic struct must depend on the last member's size, not only on alignments
-    endm = [n for n in ss.walk() if isinstance(n, ast.If) and 'any((is_member_dynamic(m) for m in node_.members))' in ws(unparse(n.test))]
+    endm = [n for n in ss.walk() if isinstance(n, ast.If) and any(c is x for c in anys_of(ss) for x in ast.walk(n.test))]
+    endm = [n for n in endm if not any(n is not o and any(x is n for x in ast.walk(o)) and o in endm for o in endm)] or endm
     if len(endm) != 1:
         raise AnalysisError('evaluate_struct_size: end-padding branch of dynamic structs not found')
-    vals = [b.value for b in endm[0].body if isinstance(b, ast.Assign) and ws(unparse(b.targets[0])) == 'prev_member.padding']
+    dyn_branch = endm[0].body if not (isinstance(endm[0].test, ast.UnaryOp)) else endm[0].orelse
+    vals = [b.value for b in ast.walk(ast.Module(body=dyn_branch, type_ignores=[])) if isinstance(b, ast.Assign)
+            and isinstance(b.targets[0], ast.Attribute) and b.targets[0].attr == 'padding']
     val = vals[0] if len(vals) == 1 else None
     deps = set(n.attr for n in ast.walk(val) if isinstance(n, ast.Attribute)) | set(n.id for n in ast.walk(val) if isinstance(n, ast.Name)) if val is not None else set()
     L.check('byte_size' in deps or ws(unparse(val)) == '-alignment', 'F16.end-padding-depends-on-size',
